@@ -79,6 +79,9 @@ type c20Workload struct {
 	// HandleFromTx (documents): the child handle of the array that the goroutines share was obtained
 	// inside an earlier, finished transaction (it carries that transaction's context)
 	HandleFromTx bool `json:"handle_from_tx,omitempty"`
+	// Big: the datatype holds a few thousand elements before the goroutines start, so that a read of the whole
+	// state takes long enough for other goroutines' calls to fall into it
+	Big bool `json:"big,omitempty"`
 }
 
 func c20GenCall(rt *rapid.T, kind sim.Kind, label string, g int, n *int) sim.Call {
@@ -174,6 +177,7 @@ func c20Gen(rt *rapid.T, kind sim.Kind) c20Workload {
 	if kind == sim.Document {
 		w.HandleFromTx = rapid.Bool().Draw(rt, "handle_from_tx")
 	}
+	w.Big = kind != sim.Counter && rapid.IntRange(0, 2).Draw(rt, "big_state") == 0
 	rn := rapid.IntRange(0, 15).Draw(rt, "remote")
 	cnt := 0
 	for j := 0; j < rn; j++ {
@@ -194,6 +198,7 @@ type c20Outcome struct {
 	txOverlap   int32
 	remoteUnits int
 	pairs       int64
+	base        int // operations the replica had emitted before the goroutines started
 	half        []string // reads that showed a half-applied transaction
 }
 
@@ -206,6 +211,25 @@ func c20Run(wl c20Workload) (*sim.World, *c20Outcome) {
 		_ = w.Quiesce()
 	}
 	out := &c20Outcome{}
+	if wl.Big {
+		var many []sim.Val
+		for i := 0; i < 3000; i++ {
+			many = append(many, sim.I(int64(i)))
+		}
+		switch wl.Kind {
+		case sim.Map:
+			for i := 0; i < 1200; i++ {
+				w.Call(0, sim.Call{M: "Put", Key: fmt.Sprintf("f%d", i), Vals: []sim.Val{sim.I(int64(i))}})
+			}
+		case sim.List:
+			w.Call(0, sim.Call{M: "InsertMany", Pos: 0, Vals: many})
+		case sim.Document:
+			w.Call(0, sim.Call{M: "PutToObject", Key: "big", Vals: []sim.Val{{T: "slice", L: many}}})
+		}
+		_ = w.Quiesce()
+	}
+	w.Reps[0].NoteEmitted()
+	out.base = len(w.Reps[0].Emitted)
 	// the remote replica prepares its operations beforehand; they are concurrent with everything A does
 	for _, c := range wl.Remote {
 		w.Call(1, c)
@@ -415,10 +439,7 @@ func c20Check(wl c20Workload, w *sim.World, out *c20Outcome) error {
 	rep := w.Reps[0]
 	rep.NoteEmitted()
 	ops := rep.Emitted
-	base := 1 // the creator's snapshot operation
-	if wl.Kind == sim.Document {
-		base = 2
-	}
+	base := out.base // the creator's snapshot operation and the set-up calls
 	// sequence numbers in order, units contiguous
 	headers := 0
 	for i := 0; i < len(ops); i++ {
@@ -502,6 +523,9 @@ func testC20(t *testing.T, kind sim.Kind) {
 		}
 		if out.pairs > 0 {
 			labels = append(labels, "pair-transactions-and-whole-state-reads")
+		}
+		if wl.Big {
+			labels = append(labels, "big-state(long-reads)")
 		}
 		col.Case(out.overlap == 1 && out.txOverlap == 1, string(b), append(labels, "kind="+string(kind), fmt.Sprintf("goroutines=%d", len(wl.Scripts))), func() interface{} {
 			return map[string]interface{}{"kind": kind, "goroutines": len(wl.Scripts), "script_lengths": func() []int {
